@@ -94,7 +94,7 @@ _add(PropertySpec(
              f"{DP}:Entry.update", f"{DP}:Entry.combine", f"{DP}:Entry.__iter__",
              f"{MRC}:ReconciliationOutput.node_event", f"{MRC}:ReconciliationOutput._cost_rec", f"{MRC}:ReconciliationOutput.cost",
              f"{TR}:LowestCommonAncestor.is_ancestor_of", f"{TR}:LowestCommonAncestor.distance"],
-    level="proof", standins=["reconciliation:thl-exh-vs-brute-force", "thl-step-functions:recurrence-contract-at-runtime", "dynamic_programming:Table-proxies"],
+    level="proof", standins=["reconciliation:thl-exh-vs-brute-force", "reconciliation:F-COHERENCE-cost-witness", "thl-step-functions:recurrence-contract-at-runtime", "dynamic_programming:Table-proxies"],
     standin_for={f"{CR}:_compute_thl_try_speciation": "thl-step-functions:recurrence-contract-at-runtime",
                  f"{CR}:_compute_thl_try_duplication_transfer": "thl-step-functions:recurrence-contract-at-runtime"},
     technique="contract-based deductive verification of the two THL step functions (Bellman recurrence of the documented event model, value and ALL / ANY tag clauses, frame) "
@@ -109,7 +109,7 @@ _add(PropertySpec(
              f"{CR}:_compute_thl_try_speciation", f"{CR}:_compute_thl_try_duplication_transfer", f"{DP}:Table.entry"],
     level="proof", standin_for={f"{CR}:_compute_thl_try_speciation": "thl-step-functions:recurrence-contract-at-runtime",
                                 f"{CR}:_compute_thl_try_duplication_transfer": "thl-step-functions:recurrence-contract-at-runtime"},
-    standins=["reconciliation:thl-exh-vs-brute-force", "labelled-solvers:all-any-vs-optimal-set",
+    standins=["reconciliation:thl-exh-vs-brute-force", "reconciliation:F-COHERENCE-witnesses", "labelled-solvers:all-any-vs-optimal-set",
                             "thl-step-functions:recurrence-contract-at-runtime", "spfs-entry:recurrence-contract-at-runtime", "uspfs-entry:recurrence-contract-at-runtime"],
     technique="contract-based deductive verification of the tag clauses of Entry.update / combine / __iter__ (ALL keeps exactly the optimal tags, ANY exactly one); "
               "solver-level clauses (decode completeness, result sets): bounded stand-in against the brute-force optimal set",
